@@ -604,4 +604,32 @@ theorem c3_mpDecide_needs_nodup :
       seqClash [("a", MVal.var "x"), ("x", MVal.var "y"), ("x", MVal.val (fun _ : Name → Nat => 0))]) = false := by
   decide
 
+
+/-! ### Constant.eager_subs: the executable model means the simultaneous substitution -/
+
+/-- A Constant's value ignores its const inputs: substituting them (simultaneously, by anything defined) leaves the
+    value unchanged — the model's result (new const inputs by `constSubs`, same `arg`) means the Constant at the
+    substituted point.  `hk`: the keys are const inputs, which `Constant.__init__` asserts disjoint from `arg.inputs`. -/
+theorem const_eager_subs_sem (c : ConstT) (argIns : Inputs) (valueIns : Name → Option Inputs) (σ : Subst) (env : Env)
+    (hk : ∀ k ∈ tkeys σ, k ∉ c.arg.fv) (hdef : (denoteSubs σ env).isSome = true) :
+    (constEagerSubs c argIns valueIns).meaning env = denote (Term.subs c.arg σ) env := by
+  rw [subs_denote]
+  cases hb : denoteSubs σ env with
+  | none => rw [hb] at hdef; cases hdef
+  | some b =>
+    simp only [Option.bind_some, ConstT.meaning, constEagerSubs]
+    apply denote_coincidence
+    intro n hn
+    have hkeys := denoteSubs_keys σ env b hb
+    have hnb : n ∉ b.map (·.1) := by
+      rw [hkeys]; intro hm; exact hk n hm hn
+    rw [lookup_append, (lookup_eq_none_iff b n).mpr hnb]
+
+/-- The inputs clause for the model's result: every const input of the result is a kept const input or an input of a
+    substituted value (restating `const_subs_sub` for `constEagerSubs`). -/
+theorem const_eager_subs_inputs (c : ConstT) (argIns : Inputs) (valueIns : Name → Option Inputs) (n : Name)
+    (h : n ∈ names (constEagerSubs c argIns valueIns).consts) :
+    (n ∈ names c.consts ∧ valueIns n = none) ∨ ∃ k vi, k ∈ names c.consts ∧ valueIns k = some vi ∧ n ∈ names vi :=
+  const_subs_sub c.consts argIns valueIns n h
+
 end FV.Props.C04
